@@ -1,4 +1,6 @@
 import CsVerif.Model.C09
+import CsVerif.Model.C09Gen
+import CsVerif.Model.PyUShow
 /-! Line-protocol driver for the C09 model.
 
   hist|histret|histeof|histwild <B|F|U> <nonceOff> <raw> <ops>     ops = comma separated: s<whence>:<off>  r<n>|rn  t
@@ -14,6 +16,13 @@ import CsVerif.Model.C09
   detectlog <B|F> <maxrange> <raw> <bufsize>               the same plus what from_file logs at DEBUG level:
       `<detect answer> <eof_shellcode_offsets l..> <nonce_offsets l..> <tried offsets l..> <their counts l..>`
   histneg <B|F|U> <nonceOff> <raw> <ops>                   histories with seeks to negative logical positions (as histret)
+`g-*` streams — the definitions TRANSLATED from the source of `iter_nonce_offsets` and of `XorEncodedFile.__init__ / read_nonce /
+tell / seek / read` (Gen/PyXor.lean); `read` runs with the fuel `C09Gen.fuelOfV` (= len(raw file) + 1):
+  ghist|ghistret|ghisteof|ghistwild|ghistneg, gnonce, gino <same operands>   → same format (constructor and every operation
+      through the translated methods; a value of an unexpected shape: `?…`)
+  gargi <file:V> <real_size:V> <maxrange:V>                → ok <list:V> <final tell | -> | exc <E>     (arguments of any kind,
+  gargm <B|F> <nonceOff> <raw> <rawpos> seek <off:V> <whence:V> | read <n:V> | new <nonce_offset:V>      notation of PyUShow)
+                                                           → ok <result:V> <raw tell> | exc <E>
 -/
 namespace C09
 open Proto
@@ -60,6 +69,125 @@ def showDetect : Py XorFile → String
       | .ok (bs, _) => showBytes bs
       | .error e => "exc" ++ e.name
     s!"ok {x.nonceOff} {x.fh.tell} {tell x} {head}"
+
+/-! ### `g-*` streams: the translated definitions -/
+
+def clsOfG (cid : Nat) : Option PyU.Cls :=
+  if cid == 9000 then some PyU.FileCls else if cid == 1 then some Gen.PyXor.XorEncodedFile else none
+
+def vTokG (s : String) : Option PyU.V := PyU.vTok (fun _ => none) clsOfG s
+
+/-- the raw position of the file inside an instance / of a file object -/
+def vRawTell? : PyU.V → Option Nat
+  | .inst c (f :: rest) => if c == PyU.FileCls then (PyU.asFile (.inst c (f :: rest))).map (·.2.1) else (PyU.asFile f).map (·.2.1)
+  | _ => none
+
+/-- one output of a history through the translated methods, in the format of `showOut` -/
+def showOutG (withRet : Bool) (op : Op) (r : Py PyU.V) : String :=
+  match r, op with
+  | .error e, _ => "e" ++ e.name
+  | .ok (.int v), .seek _ _ => if withRet then s!"s{v}" else "s"
+  | .ok (.bytes b), .read _ => "b" ++ Hex.encode b
+  | .ok (.int p), .tell => s!"p{p}"
+  | .ok _, _ => "?out"
+
+def ghistLine (withRet : Bool) (k off raw ops : String) : String :=
+  match kindTok k, natTok off, bytesTok raw, opsTok ops with
+  | some k, some off, some raw, some ops =>
+    match Gen.PyXor.XorEncodedFile_new (C15Gen.encFile { data := raw, pos := 0, kind := k }) (.int (off : Int)) with
+    | .error e => "exc " ++ e.name
+    | .ok self =>
+      " ".intercalate ((ops.zip (C09Gen.runTraceG (C09Gen.fuelOfV self) self ops)).map fun p => showOutG withRet p.1 p.2)
+  | _, _, _, _ => "bad-op"
+
+/-- the instance with the raw file moved to `pos` (what `fh.seek(pos)` on the underlying file does) -/
+def setRawPos (self : PyU.V) (pos : Nat) : PyU.V :=
+  match self with
+  | .inst c (f :: rest) =>
+    match PyU.asFile f with
+    | some (d, _, k) => .inst c (PyU.mkFile d pos k :: rest)
+    | none => self
+  | v => v
+
+def showResG (r : Py PyU.V) : String :=
+  match C09Gen.unpackRes r with
+  | .error e => "exc " ++ e.name
+  | .ok (v, s) =>
+    match vRawTell? s with
+    | some t => s!"ok {PyU.vShow v} {t}"
+    | none => "?res"
+
+def gstep : List String → String
+  | ["ghist", k, off, raw, ops] => ghistLine false k off raw ops
+  | ["ghistret", k, off, raw, ops] => ghistLine true k off raw ops
+  | ["ghisteof", k, off, raw, ops] => ghistLine false k off raw ops
+  | ["ghistwild", k, off, raw, ops] => ghistLine true k off raw ops
+  | ["ghistneg", k, off, raw, ops] => ghistLine true k off raw ops
+  | ["gnonce", k, off, raw, pos] =>
+    match kindTok k, natTok off, bytesTok raw, natTok pos with
+    | some k, some off, some raw, some pos =>
+      match Gen.PyXor.XorEncodedFile_new (C15Gen.encFile { data := raw, pos := 0, kind := k }) (.int (off : Int)) with
+      | .error e => "exc " ++ e.name
+      | .ok self =>
+        match C09Gen.unpackRes (Gen.PyXor.XorEncodedFile_read_nonce (setRawPos self pos)) with
+        | .error e => "exc " ++ e.name
+        | .ok (.bytes n, s) =>
+          match vRawTell? s with
+          | some t => s!"{showBytes n} {t}"
+          | none => "?nonce"
+        | .ok _ => "?nonce"
+    | _, _, _, _ => "bad-op"
+  | ["gino", k, rs, mr, raw] =>
+    match kindTok k, optTok intTok rs, natTok mr, bytesTok raw with
+    | some k, some rs, some mr, some raw =>
+      match Gen.PyXor.iter_nonce_offsets (C15Gen.encFile { data := raw, pos := 0, kind := k }) (C15Gen.encOptInt rs) (.int (mr : Int)) with
+      | .error e => "exc " ++ e.name
+      | .ok (.tuple [.list l, f]) =>
+        match l.mapM (fun v => match v with | .int n => some n | _ => none), vRawTell? f with
+        | some xs, some t => s!"ok {showInts xs} {t}"
+        | _, _ => "?ino"
+      | .ok _ => "?ino"
+    | _, _, _, _ => "bad-op"
+  | ["gargi", f, rs, mr] =>
+    match vTokG f, vTokG rs, vTokG mr with
+    | some f, some rs, some mr =>
+      match Gen.PyXor.iter_nonce_offsets f rs mr with
+      | .error e => "exc " ++ e.name
+      | .ok (.tuple [l, f']) => s!"ok {PyU.vShow l} " ++ (match vRawTell? f' with | some t => toString t | none => "-")
+      | .ok _ => "?gen"
+    | _, _, _ => "bad-op"
+  | "gargm" :: k :: off :: raw :: pos :: rest =>
+    match kindTok k, natTok off, bytesTok raw, natTok pos with
+    | some k, some off, some raw, some pos =>
+      let file := C15Gen.encFile { data := raw, pos := 0, kind := k }
+      match rest with
+      | ["new", o] =>
+        match vTokG o with
+        | some o =>
+          match Gen.PyXor.XorEncodedFile_new file o with
+          | .error e => "exc " ++ e.name
+          | .ok self =>
+            match self, vRawTell? self with
+            | .inst _ [_, a, b, c], some t => s!"ok {PyU.vShow (.tuple [a, b, c])} {t}"
+            | _, _ => "?new"
+        | none => "bad-op"
+      | _ =>
+        match Gen.PyXor.XorEncodedFile_new file (.int (off : Int)) with
+        | .error e => "exc " ++ e.name
+        | .ok self0 =>
+          let self := setRawPos self0 pos
+          match rest with
+          | ["seek", o, w] =>
+            match vTokG o, vTokG w with
+            | some o, some w => showResG (Gen.PyXor.XorEncodedFile_seek self o w)
+            | _, _ => "bad-op"
+          | ["read", n] =>
+            match vTokG n with
+            | some n => showResG (Gen.PyXor.XorEncodedFile_read (C09Gen.fuelOfV self) self n)
+            | none => "bad-op"
+          | _ => "bad-op"
+    | _, _, _, _ => "bad-op"
+  | _ => "bad-op"
 
 def step : List String → String
   | ["hist", k, off, raw, ops] => histLine false k off raw ops
@@ -136,6 +264,6 @@ def step : List String → String
             | .error _ => ranked
           s!"{showDetect res} {showInts (hits.map (· + 3))} {showNats offs} {showNats (tried.map (·.1))} {showNats (tried.map (·.2))}"
     | _, _, _, _ => "bad-op"
-  | _ => "bad-op"
+  | ws => gstep ws
 
 end C09
